@@ -356,7 +356,7 @@ def mutations(rng, lines, n):
             nums = [k for k, w in enumerate(words) if any(c in b"0123456789" for c in w)]
             if nums:
                 k = nums[int(rng.integers(len(nums)))]
-                words[k] = rng.choice([b"1e400", b"12345678901234567890", b"nan", b"*****", b"-", b"1.2.3", b"0x10", b"inf"])
+                words[k] = rng.choice([b"1e400", b"12345678901234567890", b"nan", b"*****", b"-", b"1.2.3", b"0x10", b"inf", b"100000000000000000"])
                 new[i] = b" ".join(words) + b"\n"
         elif kind == "intfield":
             # change one integer of a line that consists of integers only (type codes, maps, counts deep inside the file)
@@ -428,7 +428,8 @@ def mutations(rng, lines, n):
             if ints:
                 k = ints[int(rng.integers(len(ints)))]
                 val = int(words[k])
-                words[k] = str(int(rng.choice([val * 10, val * 1000, val - 1, 0, -val, val + 1, 10**7]))).encode()
+                # (10**17 elements cannot be allocated on any machine: the parser's MemoryError must come out as LoadError too)
+                words[k] = str(int(rng.choice([val * 10, val * 1000, val - 1, 0, -val, val + 1, 10**7, 10**17, 10**17]))).encode()
                 new[i] = b" ".join(words) + b"\n"
         yield f"{kind}@{i}", new
 
